@@ -301,6 +301,16 @@ def write_xlsx_with_results(spec, results, path):
         ws = wb[arr['sheet']]
         first_cell = arr['ref'].split(':')[0]
         ws[first_cell] = ArrayFormula(arr['ref'], arr['formula'])
+        # the other members of the array only carry their stored value
+        from openpyxl.utils import range_boundaries
+        c1, r1, c2, r2 = range_boundaries(arr['ref'])
+        from openpyxl.utils import get_column_letter
+        for r in range(r1, r2 + 1):
+            for c in range(c1, c2 + 1):
+                coord = f'{get_column_letter(c)}{r}'
+                v = results.get(arr['sheet'], {}).get(coord)
+                if coord != first_cell and v is not None:
+                    ws[coord] = v
     for name, target in (spec.get('names') or {}).items():
         dn = DefinedName(name=name, attr_text=target)
         if hasattr(wb.defined_names, 'append'):
